@@ -26,8 +26,12 @@ PROP = {
                   "nolint:maprange. Supporting exploration (not part of the proof): stream `det` executes every generated "
                   "history 3 times from scratch (fresh runtime and ledger, GOMAXPROCS 1/2/all, Go's per-range random map "
                   "order) and compares the full host-visible observation byte for byte (SetValue keys, value digests and "
-                  "order, events, logs, result / error kind, final ledger digest); every commit block must also be in "
-                  "the canonical sorted order.",
+                  "order, events, logs, result / error kind, the complete error message text with every reported "
+                  "sub-error in order, final ledger digest); every commit block must also be in the canonical sorted "
+                  "order. Contract-update family (24 histories at quick, each executed 20 times from scratch): a "
+                  "contract with 2-8 nested declarations of different kinds (struct, resource, event, enum, struct / "
+                  "resource interface, attachment; names against the kind order) is deployed, then invalid updates "
+                  "(contracts.update / tryUpdate) remove, re-kind or change several of them at once.",
     "level_note": "Partial: the Go scheduler, atree's parallel FastCommit and Go map iteration are outside any Lean model; "
                   "the classification of each map range is by reading (trusted). Separate processes / CPU affinity "
                   "(taskset, which changes runtime.NumCPU and thus FastCommit's worker count) are not varied by the "
